@@ -181,6 +181,8 @@ def ip_pair(fam, args):
     res = r["results"] if args.get("shared", True) else r["fresh"]
     if any(isinstance(x, str) for x in res):
         return dict(violated=True, observed=res, detail="anonymize raised", misses=r["misses"])
+    if any(not (0 <= x < (1 << w)) for x in res):
+        return dict(violated=True, observed=res, detail="image outside the %d-bit address space" % w, misses=r["misses"])
     bad = _cpl(a, b, w) != _cpl(res[0], res[1], w)
     return dict(violated=bad, observed=res, detail="cpl(in)=%d cpl(out)=%d" % (_cpl(a, b, w), _cpl(res[0], res[1], w)), misses=r["misses"])
 
@@ -543,7 +545,10 @@ def secret_run(fam, args):
     salt = args.get("salt", "S")
     try:
         if args.get("mode") == "value":
-            return fam.sir._anonymize_value(a, {}, fam.words.default_reserved_words, salt)
+            lookup = {}
+            for prior in args.get("prior", []):
+                fam.sir._anonymize_value(prior, lookup, fam.words.default_reserved_words, salt)
+            return fam.sir._anonymize_value(a, lookup, fam.words.default_reserved_words, salt)
         rx = fam.sir.generate_default_sensitive_item_regexes()
         return fam.sir.replace_matching_item(rx, a, {}, salt, fam.words.default_reserved_words)
     except Exception as e:
@@ -593,7 +598,8 @@ def secret_format(fam, args):
     import re
     import importlib
     a, head, tail = args["a"], args["head"], args["tail"]
-    r = secret_run(fam, dict(mode="value", a=a))
+    prior = [a[len(head):len(a) - len(tail)]] if args.get("repeat") else []
+    r = secret_run(fam, dict(mode="value", a=a, prior=prior))
     if r.startswith("EXC:"):
         return dict(violated=True, observed=r, detail="raised")
     if not (r.startswith(head) and r.endswith(tail)):
@@ -1122,3 +1128,17 @@ def ip_network_contract(fam, args):
     inside = ipaddress.IPv4Address(a) in n
     bad = (should != (not (inside or _is_mask_spec(a)))) or ((ipaddress.IPv4Address(img) in n) != inside)
     return dict(violated=bad, observed=[should, img], detail="a=%s inside=%r should=%r image=%s" % (ipaddress.IPv4Address(a), inside, should, ipaddress.IPv4Address(img)), misses=misses)
+
+
+@register("secret_format_history")
+def secret_format_history(fam, args):
+    """C09-H3: a $9$ value and the clear text of the same plaintext through one lookup; the clear text keeps its own format"""
+    import re
+    p = args["plaintext"]
+    X = fam.jun.juniper_nonrandom_encrypt(p, "a")
+    lookup = {}
+    seq = [X, p] if args["order"] == "j9-first" else [p, X]
+    outs = [fam.sir._anonymize_value(v, lookup, fam.words.default_reserved_words, "S") for v in seq]
+    clear_out = outs[1] if args["order"] == "j9-first" else outs[0]
+    ok = bool(re.fullmatch(r"[0-9]+", clear_out)) if p.isdigit() else bool(re.fullmatch(r"[0-9a-fA-F]+", clear_out))
+    return dict(violated=not ok, observed=outs, detail="%r -> %r" % (seq, outs))
